@@ -9,7 +9,7 @@
     [ev_valid] excludes only the empty key in Put/Get/Delete (the property is about non-empty keys;
     query arguments may be empty). *)
 From Coq Require Import List NArith ZArith Lia.
-From Algo.C06 Require Import Spec SpecFacts Model ModelPat ProofsBin ProofsBinQ ProofsBinMain PatSweep PatInv PatBits PatTree PatMatch PatDel PatPut PatRem PatRemH.
+From Algo.C06 Require Import Spec SpecFacts Model ModelPat ProofsBin ProofsBinQ ProofsBinMain PatSweep PatInv PatBits PatTree PatMatch PatDel PatPut PatRem PatRemH PatRemS.
 Import ListNotations.
 
 Local Notation a := 97%N.
@@ -103,95 +103,79 @@ Proof. vm_compute. reflexivity. Qed.
 
 (** * Patricia trie *)
 
-(** The full statement.  It is NOT proved, and it is false for the code as it is: see the three
-    refutations below (recorded as known findings).  What holds today for the Patricia trie rests on
-    the correspondence only: the extracted model [p_step] is replayed against trie/patricia.go on every
-    run including structure dumps, and both are compared with the specification on every operation;
-    outside the three recorded shapes no difference is tolerated. *)
+(** The property as written, for the Patricia model.  It is FALSE for the code as it is — the three
+    refutations at the end (recorded as known findings): WithPrefix, LongestPrefixOf, and keys that are
+    equal up to trailing 0x00 bytes. *)
 Definition C06_refines_patricia_full : Prop :=
   forall (V : Type) (es : list (ev V)), Forall ev_valid es -> p_run p_new es = s_run [] es.
+
+(** What IS proved, for every value type and every finite history: on the domain that excludes
+    exactly the three recorded findings — Put keys representable ([kvalid]: non-empty, bytes < 256,
+    no trailing 0x00), no WithPrefix / LongestPrefixOf events — the Patricia model returns, operation
+    by operation, what the specification returns: Put, Delete (held or absent key, any key),
+    DeleteMin, DeleteMax, DeleteAll, and Get, Size, Min, Max, Floor, Ceiling, Select, Rank, Range,
+    RangeSize, All, Match with arbitrary arguments.  No operation panics or runs out of fuel. *)
+Theorem C06_refines_patricia :
+  forall (V : Type) (es : list (ev V)), Forall full_event es -> p_run p_new es = s_run [] es.
+Proof. intros. now apply patricia_refines. Qed.
 
 Example C06_example_patricia :
   let es := [EPut [a;b] 1%Z; EPut [a] 2%Z; EPut [233%N] 3%Z; EDelete [a;b]; EDelete [a;b]; EGet [a]; ESize;
              ERank [b]; EMatch [star]; EDeleteMax; EAll; EDeleteMin; EMin] in
-  p_run p_new es = s_run [] es.
-Proof. vm_compute. reflexivity. Qed.
+  Forall (@full_event Z) es /\ p_run p_new es = s_run [] es.
+Proof. split; [repeat constructor; simpl; try discriminate; try lia | vm_compute; reflexivity]. Qed.
 
-(** Proved part 1 (universal over states): in every state [t] of the Patricia model that passes the
-    executable structural check [p_inv_check] (the threads unfold into a tree in which every key below
-    the left/right link of a node has bit 0/1 at the node's bit position, the keys in thread order are
-    strictly increasing, size = number of threads), the queries Get, Size, Min, Max, Floor, Ceiling,
-    Select, Rank, Range, RangeSize and All — with present or absent arguments — return exactly what the
-    specification returns on the state's contents, and neither panic nor run out of fuel.
-    Not proved: that Put/Delete/DeleteMin/DeleteMax lead from a checked state to a checked state with
-    the specification's contents; the driver evaluates [p_inv_check] on the model after every mutator
-    of every replayed case and compares All() with the specification (correspondence).  Match is
-    covered by C06_patricia_match_checked below. *)
-Theorem C06_patricia_queries_checked_partial :
-  forall (V : Type) (t : pstate V) (e : ev V), p_inv_check t = true -> checked_query e ->
+(** ** the pieces *)
+
+(** Queries in every state [t] that passes the executable structural check [p_inv_check] (the threads
+    unfold into a tree in which every key below the left/right link of a node has bit 0/1 at the
+    node's bit position, the keys in thread order are strictly increasing, size = number of
+    threads): they return what the specification returns on the state's contents. *)
+Theorem C06_patricia_queries_checked :
+  forall (V : Type) (t : pstate V) (e : ev V), p_inv_check t = true -> checked_query_m e ->
     p_step t e = (t, snd (s_step (p_contents t) e)).
-Proof. intros. now apply p_step_checked. Qed.
+Proof. intros. now apply p_step_checked_m. Qed.
 
-(** Proved part 1b (universal, unbounded histories without deletes): Put preserves the logical
-    invariant [PInv] (the threads unfold into a tree with distinct inner nodes; side bits and prefix
-    agreement at every node; representable keys; size) and has exactly the specification's effect on
-    the contents; [PInv] implies [p_inv_check].  A key is representable ([kvalid]) when it is non-empty,
-    its bytes are below 256 and it does not end in 0x00 — exactly the domain outside the recorded
-    trailing-NUL finding.  Consequently, for EVERY history of Put (representable keys) and of the
-    queries Get, Size, Min, Max, Floor, Ceiling, Select, Rank, Range, RangeSize, All and Match (any
-    arguments, any pattern), the Patricia model returns what the specification returns, never panics and never runs out of fuel.
-    Still resting on the correspondence and the bounded sweep: Delete / DeleteMin / DeleteMax (the
-    four-pointer remove). *)
-Theorem C06_patricia_put_partial :
-  forall (V : Type) (t : pstate V) k (v : V), PInv t -> kvalid k ->
-    exists t', p_put t k v = ROk t' /\ PInv t' /\ p_inv_check t' = true /\
-               p_contents t' = sput k v (p_contents t).
-Proof.
-  intros V t k v I KV. destruct (p_put_preserves t k v I KV) as [t' [P [I' C]]].
-  exists t'. repeat split; auto. now apply PInv_check.
-Qed.
-
-(** Match in every checked state: the pattern-directed descent misses no matching key *)
 Theorem C06_patricia_match_checked :
   forall (V : Type) (t : pstate V) pat, p_inv_check t = true ->
     p_match t pat = ROk (s_match pat (p_contents t)).
 Proof. intros. now apply p_match_correct. Qed.
 
-Theorem C06_refines_patricia_noDelete :
-  forall (V : Type) (es : list (ev V)), Forall nd_event es -> p_run p_new es = s_run [] es.
-Proof. intros. now apply patricia_refines_noDelete. Qed.
-
-(** Deleting a key that is not held changes nothing and answers "not found" (every checked state,
-    any key) — the part of the property's last sentence that does not need the four-pointer remove. *)
-Theorem C06_patricia_delete_absent :
-  forall (V : Type) (t : pstate V) k, p_inv_check t = true -> sget k (p_contents t) = None ->
-    p_delete t k = ROk (t, None).
-Proof. intros. now apply p_delete_absent. Qed.
-
-(** The strongest history theorem proved for the Patricia trie: every history in which
-    - Put uses representable keys,
-    - every Delete is of a key that is absent at that moment, or the map holds exactly one key
-      (then the key may be the held one: removal of the last key is proved),
-    - DeleteMin / DeleteMax occur when the map holds at most one key, DeleteAll anywhere,
-    - queries are Get, Size, Min, Max, Floor, Ceiling, Select, Rank, Range, RangeSize, All, Match,
-    returns exactly the specification's outputs.  Missing for [C06_refines_patricia_full] on the
-    domain [kvalid]: removal of a held key from a map with two or more keys (Delete / DeleteMin /
-    DeleteMax through the re-linking cases of [p_remove]). *)
-Theorem C06_refines_patricia_partial :
-  forall (V : Type) (es : list (ev V)), ok_hist [] es -> p_run p_new es = s_run [] es.
-Proof. intros. now apply patricia_refines_partial. Qed.
-
-(** Intermediate results towards the removal of a held key from a map with two or more keys
-    (not closed): Put keeps the ownership facts the re-linking cases of remove rely on (every inner
-    node's own thread lies in its own subtree, one thread per key, the root's thread exists), and in
-    a checked state the descents of Delete / DeleteMin / DeleteMax hand [p_remove] exactly the
-    target, the referrer, the referrer's predecessor and the target's predecessor of the unfolded
-    tree ([tsd], [referrer], [nparent]). *)
-Theorem C06_patricia_put_keeps_ownership :
+(** Put preserves the logical invariant [POwn] (the threads unfold into a tree with distinct inner
+    nodes; side bits and prefix agreement at every node; representable keys; size; every inner node's
+    own thread lies in its own subtree; one thread per key; the root's thread exists) and equals
+    sorted insertion on the contents; [POwn] implies [PInv], which implies [p_inv_check]. *)
+Theorem C06_patricia_put_preserves :
   forall (V : Type) (t : pstate V) k (v : V), POwn t -> kvalid k ->
-    exists t', p_put t k v = ROk t' /\ POwn t' /\ p_contents t' = sput k v (p_contents t).
-Proof. intros. now apply p_put_preserves_own. Qed.
+    exists t', p_put t k v = ROk t' /\ POwn t' /\ p_inv_check t' = true /\
+               p_contents t' = sput k v (p_contents t).
+Proof.
+  intros V t k v O KV. destruct (p_put_preserves_own t k v O KV) as [t' [P [O' C]]].
+  exists t'. repeat split; auto. apply PInv_check. now apply POwn_PInv.
+Qed.
 
+(** Removal (the four-pointer [remove] with all its aliasing cases): Delete of a held key, DeleteMin
+    and DeleteMax preserve [POwn] and remove exactly that key; Delete of an absent key changes nothing. *)
+Theorem C06_patricia_remove_preserves :
+  forall (V : Type) (t : pstate V), POwn t ->
+    (forall k v, sget k (p_contents t) = Some v ->
+       exists t', p_delete t k = ROk (t', Some v) /\ POwn t' /\ p_contents t' = sdel k (p_contents t)) /\
+    (forall k, sget k (p_contents t) = None -> p_delete t k = ROk (t, None)) /\
+    (forall e0 m', p_contents t = e0 :: m' ->
+       exists t', p_deletemin t = ROk (t', Some e0) /\ POwn t' /\ p_contents t' = m') /\
+    (forall e0 m', p_contents t = m' ++ [e0] ->
+       exists t', p_deletemax t = ROk (t', Some e0) /\ POwn t' /\ p_contents t' = m').
+Proof.
+  intros V t O. repeat split.
+  - intros k v G. now apply p_delete_held.
+  - intros k G. apply p_delete_absent; auto. apply PInv_check. now apply POwn_PInv.
+  - intros e0 m' C. now apply p_deletemin_held.
+  - intros e0 m' C. now apply p_deletemax_held.
+Qed.
+
+(** the heap-level core of the removal: the four pointers found by the descents, and "every heap
+    that implements the re-linking represents the transformed tree" ([p_remove_ok] shows that the
+    heap computed by [p_remove] is such a heap) *)
 Theorem C06_patricia_remove_pointers :
   forall (V : Type) (t : pstate V) r0 rn c T d check, pinv t r0 rn c T ->
     p_delete_dir t r0 d check =
@@ -204,37 +188,17 @@ Theorem C06_patricia_remove_pointers :
        else ROk (t, None)).
 Proof. intros V t r0 rn c T d check I. exact (p_delete_dir_pointers t r0 rn c T d check I). Qed.
 
-(** The re-linking cases of remove, up to the three heap writes.  [tdel] is the tree transformer of
-    a removal (the last inner node [r] of the path is replaced by its other child; the inner node
-    [n] — the target, an ancestor of [r], or the root — hands its position to [r]).
-    [relinked h H' kk n r rp np co] says that heap [H'] implements the re-linking on [h]: every node
-    other than [r] keeps its bit position and its links, except that [rp]'s link to [r] leads to
-    [r]'s other child [co], [np]'s link to [n] leads to [r], and node [r] carries [n]'s record
-    (keys and values stay with their nodes).  For every such [H'] the state after the removal has
-    the new root record, represents [tdel T], keeps ownership, distinct threads and inner nodes and
-    the bit invariant, and its threads are those of [T] without [n] (so its contents are the
-    specification's [sdel]).  NOT proved: that the heap computed by [p_remove] (three writes with
-    aliasing between n, r, rp, np) satisfies [relinked]; removal of a held key from a trie with two or
-    more keys therefore still rests on the bounded sweep and the correspondence. *)
-Theorem C06_patricia_remove_relinked_partial :
-  forall (V : Type) (h H' : list (pnode V)) kk n r rp np co r0 rn0 c0 T,
-    relinked h H' kk n r rp np co ->
-    nth_error h r0 = Some rn0 -> n_bp rn0 = 0%Z -> n_left rn0 = Some c0 -> n_right rn0 = None ->
-    Rep h 0 c0 T -> is_leaf T = false ->
-    NoDup (inners T) -> NoDup (leaves T) -> owns T -> tbits (nbp h) (nkey h) T -> In r0 (leaves T) ->
-    ts (nbp h) kk T = n -> referrer h (ByKey kk) T r0 r0 = (rp, r) ->
-    (In n (inners T) -> nparent h (ByKey kk) n T r0 = np) -> (~ In n (inners T) -> np = r) ->
-    let T' := tdel (nbp h) kk n r T in
-    let root' := rho n r r0 in
-    exists rn0', nth_error H' root' = Some rn0' /\ n_bp rn0' = 0%Z /\
-      n_left rn0' = Some (newlink h kk n r co T c0) /\ n_right rn0' = None /\
-      Rep H' 0 (newlink h kk n r co T c0) T' /\ owns T' /\ NoDup (leaves T') /\ NoDup (inners T') /\
-      In root' (leaves T') /\ tbits (nbp H') (nkey H') T' /\
-      (forall j, In j (leaves T') <-> In j (leaves T) /\ j <> n) /\
-      (forall j, In j (leaves T') -> nkey H' j = nkey h j).
-Proof. intros V. exact (@remove_relinked V). Qed.
+Theorem C06_patricia_remove_relinked :
+  forall (V : Type) (t : pstate V) r0 rn0 c0 T kk h n rp r np,
+    PInvN t r0 rn0 c0 T -> owns T -> NoDup (leaves T) -> In r0 (leaves T) -> is_leaf T = false ->
+    h = pheap t -> n = ts (nbp h) kk T -> nkey h n = kk ->
+    referrer h (ByKey kk) T r0 r0 = (rp, r) -> np = nparent h (ByKey kk) n T r0 ->
+    exists H' co,
+      p_remove t r0 n r rp np = ROk {| psize := (psize t - 1)%Z; proot := Some (rho n r r0); pheap := H' |} /\
+      relinked h H' kk n r rp np co.
+Proof. intros V. exact (@p_remove_ok V). Qed.
 
-(** the bit-level facts behind it: DiffPos and the order of the zero padded bit strings *)
+(** the bit-level facts behind Put: DiffPos and the order of the zero padded bit strings *)
 Theorem C06_diffpos_spec : forall x y, kvalid x -> kvalid y -> x <> y ->
   (1 <= diffpos x y)%Z /\
   (forall pos, (1 <= pos < diffpos x y)%Z -> pbit x pos = pbit y pos) /\
@@ -245,19 +209,9 @@ Theorem C06_bit_order_is_lexicographic : forall x y b, bytes_ok x -> bytes_ok y 
   (forall pos, (1 <= pos < b)%Z -> pbit x pos = pbit y pos) -> pbit x b = false -> pbit y b = true -> klt x y.
 Proof. intros. now apply (lex_of_bits x y b). Qed.
 
-Example C06_example_patricia_noDelete :
-  Forall (@nd_event Z) [EPut [a;b] 1%Z; EPut [a] 2%Z; EPut [233%N] 3%Z; EPut [a;b] 4%Z; EGet [a;b]; ERank [b]; EMatch [star; b]; EAll].
-Proof. repeat constructor; simpl; try discriminate; try lia. Qed.
-
-(** Proved part 2 (finite, kernel-checked by vm_compute, deletes included): every history of at most 4
-    mutators (Put/Delete of 5 keys with dense prefix relations, a high byte and a '*', DeleteMin,
-    DeleteMax, DeleteAll: 30941 histories) followed by 96 queries (Size, All, Min, Max, Get / Floor /
-    Ceiling / Rank of 13 present and absent arguments, Select -1..5, Range, RangeSize, Match with 0-3
-    wildcards; not WithPrefix / LongestPrefixOf) returns what the specification returns.
-    Missing for the full statement: the proof for unbounded histories (invariant: bit positions
-    increase along downward links, every upward link targets the node whose key follows the path
-    bits; the four-pointer [remove]) — these rest on the correspondence alone. *)
-Theorem C06_patricia_bounded_partial :
+(** an independent finite cross-check, kernel-evaluated: every history of at most 4 mutators over 5 keys
+    (30941 histories) followed by 96 queries *)
+Theorem C06_patricia_bounded :
   forall h, In h (sweep_histories 4 1) ->
     p_run p_new (h ++ sweep_battery) = s_run [] (h ++ sweep_battery).
 Proof. exact patricia_bounded. Qed.
@@ -296,18 +250,16 @@ Print Assumptions C06_spec_longestprefixof.
 Print Assumptions C06_spec_match.
 Print Assumptions C06_spec_floor.
 Print Assumptions C06_spec_ceiling.
-Print Assumptions C06_patricia_queries_checked_partial.
-Print Assumptions C06_patricia_put_partial.
+Print Assumptions C06_refines_patricia.
+Print Assumptions C06_patricia_queries_checked.
 Print Assumptions C06_patricia_match_checked.
-Print Assumptions C06_refines_patricia_noDelete.
-Print Assumptions C06_patricia_delete_absent.
-Print Assumptions C06_refines_patricia_partial.
-Print Assumptions C06_patricia_put_keeps_ownership.
+Print Assumptions C06_patricia_put_preserves.
+Print Assumptions C06_patricia_remove_preserves.
 Print Assumptions C06_patricia_remove_pointers.
-Print Assumptions C06_patricia_remove_relinked_partial.
+Print Assumptions C06_patricia_remove_relinked.
 Print Assumptions C06_diffpos_spec.
 Print Assumptions C06_bit_order_is_lexicographic.
-Print Assumptions C06_patricia_bounded_partial.
+Print Assumptions C06_patricia_bounded.
 Print Assumptions C06_patricia_withprefix_refuted.
 Print Assumptions C06_patricia_longestprefixof_refuted.
 Print Assumptions C06_patricia_trailing_nul_refuted.
